@@ -370,7 +370,7 @@ class Engine(ExprMixin, CallMixin):
                 out = []
                 if 'cat' in cls.fields:
                     # the ghost concatenation of the list can only be updated in place when the list has one element
-                    self.oblige('assert', 'item store into a concatenation-tracked list: the list has exactly one element',
+                    self.oblige('side', 'item store into a concatenation-tracked list: the list has exactly one element',
                                 st, n == 1, node)
                     st = st.assume(n == 1)
                 for side, s in self.fork(st, z3.And(idx.t >= -n, idx.t < n)):
@@ -705,7 +705,7 @@ class Engine(ExprMixin, CallMixin):
             for f in seq.get('facts', []):
                 s0 = s0.assume(f)
             for lab, b in seq.get('needs', []):
-                self.oblige('assert', 'loop@%d: %s' % (line, lab), st, b, node)
+                self.oblige('side', 'loop@%d: %s' % (line, lab), st, b, node)
         ivar = z3.IntVal(0)
         if is_for and isinstance(node.target, ast.Name) and node.target.id not in s0.locals:
             try:   # the loop variable is unbound before the loop: give it an arbitrary value of the item type
